@@ -63,6 +63,7 @@ func init() {
 func run(c *fw.Ctx) {
 	n := c.N(4500, 40000)
 	c.Cases("conn", n, func(i int, r *fw.Rand) { runConn(c, i, r) })
+	c.Cases("starttls", c.N(40, 400), func(i int, r *fw.Rand) { runStartTLS(c, i, r) })
 }
 
 // probe is one test message with its SIZE declaration.
@@ -244,16 +245,17 @@ func genProbe(r *fw.Rand, limit, slot int) probe {
 }
 
 type conn struct {
-	c       *fw.Ctx
-	env     *sut.Env
-	ss      *sut.SMTPSession
-	limit   int
-	backend string
-	idx     int
-	known   map[string]bool
-	model   map[string][]sut.MsgSnap
-	seq     int
-	hung    bool
+	probeDomain string // domain of the probe recipients (inbucket.test, or discard.test: accepted but not stored)
+	c           *fw.Ctx
+	env         *sut.Env
+	ss          *sut.SMTPSession
+	limit       int
+	backend     string
+	idx         int
+	known       map[string]bool
+	model       map[string][]sut.MsgSnap
+	seq         int
+	hung        bool
 }
 
 // cmd is SMTPSession.Cmd, except that an expired watchdog is a bounded-progress candidate (the
@@ -291,6 +293,10 @@ func runConn(c *fw.Ctx, idx int, r *fw.Rand) {
 	slot := idx / 10
 	conf := sut.DefaultConf()
 	conf.SMTP.MaxMessageBytes = limit
+	// One connection in five addresses its probes to a discard domain: such mail is accepted but
+	// not stored, and the size limit must hold for it all the same.
+	discard := r.Chance(1, 5)
+	conf.SMTP.DiscardDomains = []string{"discard.test"}
 	if backend == "file" {
 		conf.Storage.Type = "file"
 		conf.Storage.Params = map[string]string{"path": c.TempDir("c06fs")}
@@ -302,7 +308,11 @@ func runConn(c *fw.Ctx, idx int, r *fw.Rand) {
 	c.Count(fmt.Sprintf("config:%d/%s", limit, backend), 1)
 	ss := env.StartSMTP()
 	ss.Watchdog = 120 * time.Second * time.Duration(c.Slow)
-	k := &conn{c: c, env: env, ss: ss, limit: limit, backend: backend, idx: idx, known: map[string]bool{}, model: map[string][]sut.MsgSnap{}}
+	k := &conn{c: c, env: env, ss: ss, limit: limit, backend: backend, idx: idx, known: map[string]bool{}, model: map[string][]sut.MsgSnap{}, probeDomain: "inbucket.test"}
+	if discard {
+		k.probeDomain = "discard.test"
+		c.Count("connections_to_discard_domain", 1)
+	}
 	defer func() {
 		if !ss.Ended() && !ss.Close() {
 			c.Hang("smtp-session-end", "SMTP session did not end after the client closed", "")
@@ -518,7 +528,7 @@ func (k *conn) runProbe(r *fw.Rand, p probe) (string, bool) {
 		c.Count("nonnumeric_size_reply:250", 1)
 	}
 	for _, b := range boxes {
-		rep, err := k.cmd("RCPT TO:<" + b + "@inbucket.test>")
+		rep, err := k.cmd("RCPT TO:<" + b + "@" + k.probeDomain + ">")
 		if err != nil || rep.Code != 250 {
 			k.fail("C06:smtp-dialogue", fmt.Sprintf("RCPT answered %v %v", rep, err), info)
 			return "", false
@@ -579,6 +589,17 @@ func (k *conn) runProbe(r *fw.Rand, p probe) (string, bool) {
 			return "", false
 		}
 		want := normC(p.data)
+		if k.probeDomain == "discard.test" {
+			if len(added) > 0 {
+				k.fail("C06:unexpected-stored", "mail to a discard domain was stored: "+describe(added), info)
+				return "", false
+			}
+			c.Count("accepted_and_discarded", 1)
+			if class == "dont-care" {
+				c.Count("dont_care_accepted", 1)
+			}
+			return sig("accepted-discarded"), len(replies) == 1
+		}
 		for _, b := range boxes {
 			l := added[b]
 			if len(l) != 1 {
